@@ -7,3 +7,17 @@ package anchor
 //@ func (rec Table) IsEmpty() (yes bool)   props: C06 C16
 //@   ensures yes == (rec.X == 0 && rec.Y == 0)
 //@   modifies nothing
+
+// Read: total on arbitrary bytes; reader faults are passed on.
+//@ func Read(p *parser.Parser, pos int64) (t Table, err error)   props: C02 C18
+//@   requires parser.inv(p) && pos >= 0
+//@   ensures err == nil ==> parser.inv(p)
+//@   ensures p.r == old(p.r) && faults(p.r) >= old(faults(p.r)) && (faults(p.r) > old(faults(p.r)) ==> err != nil)
+//@   modifies p.*, allelems(byte), rpos(p.r), faults(p.r)
+
+// Append: format 1 anchor, big-endian coordinates, exactly 6 bytes.
+//@ func (rec Table) Append(buf []byte) (out []byte)   props: C08 C16
+//@   ensures len(out) == len(buf) + 6 && out[len(buf)] == 0 && out[len(buf)+1] == 1
+//@   ensures be16(out, len(buf)+2) == ite(rec.X < 0, rec.X + 65536, rec.X) && be16(out, len(buf)+4) == ite(rec.Y < 0, rec.Y + 65536, rec.Y)
+//@   ensures forall i int :: 0 <= i && i < len(buf) ==> out[i] == old(buf[i])
+//@   modifies buf[*]
